@@ -23,6 +23,7 @@ func init() {
 			ruleDescMarshalers(c)
 			ruleJSONWalkerOut(c)
 			ruleFlatWalker(c)
+			ruleMapKeyPlain(c)
 			ruleLookupStateless(c, []string{"plenccodec.Descriptor.readAsStruct"})
 		},
 	})
